@@ -81,8 +81,16 @@ async fn episode(p: &EpParams) -> EpReport {
                 // one episode in three: the first stream's client takes one more batch and then stops
                 // reading (the handler is left right behind the hand-over of that batch, for good)
                 if i == 0 && stall_first {
+                    // (the reader is let run first, so that it is waiting inside the stream when it is told
+                    // to stop after the next batch)
+                    w.settle().await;
                     streams[0].pause_reading();
-                    c0.publish(&t, &[Msg::tagged("stall")]).await.ok();
+                    // (a batch of 100 KiB: more than the transport hands over in one go, so that the
+                    // handler is not polled again behind it)
+                    let mut big = Msg::tagged("stall");
+                    big.data = b"T:stall|".to_vec();
+                    big.data.extend((0..100_000usize).map(|k| (k * 13 % 251) as u8));
+                    c0.publish(&t, &[big]).await.ok();
                     w.settle().await;
                     stalled = !streams[0].deliveries().is_empty();
                     if stalled {
@@ -100,6 +108,12 @@ async fn episode(p: &EpParams) -> EpReport {
         let cx = Cx::new(&w, 20 + i as u32);
         let s2 = s.clone();
         blocked.push(tokio::spawn(async move { cx.pull_op(&s2, 1 + (i as i32), false).await }));
+    }
+    // with a stalled stream around: one more message once everybody is parked (whoever is woken by it
+    // has to get past the stalled stream to pull it)
+    if stalled {
+        w.settle().await;
+        c0.publish(&t, &[Msg::tagged("stall2")]).await.ok();
     }
     // In some episodes the topic is deleted first: the subscription lives on detached
     // (`_deleted_topic_`), and deleting it must release its consumers all the same.
